@@ -10,6 +10,7 @@ import (
 	"flag"
 	"fmt"
 	"os"
+	"runtime/pprof"
 	"sort"
 	"sync"
 	"sync/atomic"
@@ -38,6 +39,10 @@ var (
 	excluded  = map[string]bool{}
 	stateSeen sync.Map
 )
+
+var cpuProfStop = func() {}
+
+var sparseSem = make(chan struct{}, 16)
 
 func outcome(k string) {
 	outMu.Lock()
@@ -88,6 +93,13 @@ func main() {
 	// the codec logs every rejected key with a stack trace; keep stdout for the verdict
 	log.ReplaceGlobals(zap.NewNop(), &log.ZapProperties{})
 
+	if pf := os.Getenv("VERIF_C15_CPUPROF"); pf != "" {
+		if f, err := os.Create(pf); err == nil {
+			pprof.StartCPUProfile(f)
+			defer pprof.StopCPUProfile()
+			cpuProfStop = pprof.StopCPUProfile
+		}
+	}
 	run = ev.Start("C15", "model_checking")
 	samples = ev.NewSamples(6, run.Seed)
 	dsamples = ev.NewSamples(4, run.Seed)
@@ -119,6 +131,15 @@ func main() {
 
 	checkCodecConstruction(ids)
 	codecs := makeCodecs(ids)
+	// sparse response shapes: quick uses the two boundary ids (the shape logic does not depend on the id), thorough all
+	sparseIDs := map[uint32]bool{}
+	var sparseIDList []uint32
+	for _, id := range ids {
+		if run.Thorough() || id == 0 || id == 0xFFFFFF {
+			sparseIDs[id] = true
+			sparseIDList = append(sparseIDList, id)
+		}
+	}
 
 	var wg sync.WaitGroup
 	for _, ci := range cmds {
@@ -133,6 +154,20 @@ func main() {
 				checkRanges(ci, cc)
 			}
 		}()
+		// sparse response shapes: the large part, one worker per (command, codec)
+		for _, cc := range codecs {
+			cc := cc
+			if !sparseIDs[cc.ID] {
+				continue
+			}
+			wg.Add(1)
+			go func() {
+				defer wg.Done()
+				sparseSem <- struct{}{}
+				defer func() { <-sparseSem }()
+				checkSparseDecode(ci, cc)
+			}()
+		}
 	}
 	for _, cc := range codecs {
 		cc := cc
@@ -146,6 +181,7 @@ func main() {
 	}
 	wg.Wait()
 	finishDecodeReport()
+	finishSparseReport()
 
 	// Retry back-off inside the client keeps its budget accounting but does not
 	// really sleep (repository failpoint): a request that can never succeed
@@ -182,16 +218,24 @@ func main() {
 			"else the gRPC client interface. Every message is generated by reflection with every []byte/[][]byte/nested/repeated field set to a " +
 			"distinct marker (2 elements per repeated field, recursion depth 2); a byte field is key-like iff a CamelCase word of its name is " +
 			"Key(s)/Start/End/Primary/Secondar*/Split. state = distinct (command, mode, keyspace, field|grid point); non-trivial = the case involves a key-like field, " +
-			"a range bound at a keyspace boundary or a region overlapping the boundary. differential: all raw op sequences of the stated depth over 3 keys.",
+			"a range bound at a keyspace boundary or a region overlapping the boundary. differential: all raw op sequences of the stated depth over 3 keys. " +
+			"sparse response shapes (sparse_decode): for every response, every message node (index-free path) that directly holds key-bearing optional fields " +
+			"(key-like []byte / [][]byte, nested / repeated messages with a key-like leaf beneath) x every mask of absent fields (all 2^k for k <= mask_full_up_to, else <= mask_edge absent or <= mask_edge present) " +
+			"x context {dense: rest fully populated, all instances; first-instance: only element 0 of repeated ancestors masked; sparse-chain: every ancestor keeps only the field leading to the node}: " +
+			"each present key-like leaf must decode to its logical key, each absent one stay empty, nothing else change; state = (command, codec, node, context, mask), non-trivial = at least one key-like leaf present next to an absent one / under a sparse chain. " +
+			"differential txn alphabet includes crashed writers (prewrite a,b,c + commit of the primary only; prewrite b,c only) whose locks the later readers (get, batch get, forward / reverse scans) meet at pair level.",
 		"bounds": map[string]any{"keyspace_ids": ids, "modes": []string{"raw", "txn"}, "commands": len(cmds),
-			"repeated_len": 2, "recursion": 2, "differential_depth": diffDepth, "differential_txn_depth": txnDepth, "differential_keys": 3},
+			"repeated_len": 2, "recursion": 2, "differential_depth": diffDepth, "differential_txn_depth": txnDepth, "differential_keys": 3,
+			"sparse_mask_full_up_to": sparseStats()["mask_full_up_to"], "sparse_mask_edge": sparseStats()["mask_edge"], "sparse_contexts": ctxNames, "sparse_keyspace_ids": sparseIDList},
 		"commands":          names,
 		"distinct_outcomes": oc,
 		"excluded":          ex,
 		"differential":      diffStats,
 		"differential_txn":  txnStats,
+		"sparse_decode":     sparseStats(),
 		"samples":           append(samples.List(), dsamples.List()...),
 	}
+	cpuProfStop()
 	run.Finish(cov, []string{
 		"Key-likeness is decided by field name only (rule above); a key-bearing field with an unrelated name would be treated as a value.",
 		"Every command is checked under both codec modes: codec_v2.go does not restrict commands by mode, the expected prefix is always the codec's own ('r'/'x' + 3-byte id).",
@@ -199,6 +243,8 @@ func main() {
 			"Compact (keyspace passed by id, opaque cursors), streaming responses, BatchCop/MPPTask responses (DecodeResponse documents 'no range infos'), commands without Context field for AttachContext, " +
 			"commands whose response has no region_error for GenRegionErrorResp, commands without an arm in the BatchCommands unions for the batch round trip.",
 		"RegionError decoding is demanded only for commands the region request sender accepts (SetContextNoAttach returns no error); range bounds in responses follow clipping (DecodeRange), single keys rejection (DecodeKey).",
+		"Sparse response shapes: one node is masked at a time (plus the ancestor chain in the sparse-chain context); simultaneous masks at two unrelated nodes are not enumerated. An absent region / range bound means 'unbounded' and must come back empty (clipping). " +
+			"Differential crashed writers: mocktikv has no async commit / 1PC / Flush, so locks with secondaries and BufferBatchGet are covered by the decode parts only; with 3 keys the resolver takes the lite (per-key) ResolveLock path.",
 		"CmdEmpty is outside the catalogue as defined (its String() is the unknown form).",
 		"Differential workload: mocktikv with a single unbounded region (under API v2 PD-side region keys are memcomparable while mocktikv's raw handlers compare plain keys, so split layouts are not expressible); " +
 			"empty bounds are passed as nil (mocktikv treats a non-nil empty end as an empty range); the API v1 client on the shared store only uses ranges bounded by \"d\" because its unbounded ranges legitimately cover the keyspaces.",
